@@ -524,13 +524,14 @@ func (st *State) addIdxFront(t string) {
 // ---------- spec environment ----------
 
 type SpecEnv struct {
-	x     *Exec
-	fr    *Frame
-	st    *State
-	old   *State
-	names map[string]Val
-	pkg   string // package path suffix for name resolution
-	depth int
+	x      *Exec
+	fr     *Frame
+	st     *State
+	old    *State
+	names  map[string]Val
+	pkg    string // package path suffix for name resolution
+	depth  int
+	locals *State // state whose local-variable bindings are visible inside old()
 }
 
 func (x *Exec) specEnvAt(fr *Frame, st, old *State, extra map[string]Val) *SpecEnv {
@@ -711,6 +712,12 @@ func (e *SpecEnv) ident(name string) Val {
 	}
 	if p, ok := e.st.dbgAddr[name]; ok {
 		return e.x.deref(e.st, p)
+	}
+	if e.locals != nil {
+		// inside old(): local variables keep their current values, only heap reads go to the pre-state
+		if v, ok := e.locals.dbg[name]; ok {
+			return v
+		}
 	}
 	if g, ok := e.st.ghost[name]; ok {
 		return g
@@ -1541,7 +1548,9 @@ func (e *SpecEnv) builtinSpec(name string, c *ast.CallExpr) (Val, bool) {
 		}
 		ne := *e
 		ne.st = e.old
-		// locals do not exist in the pre-state: only parameters / lets
+		if ne.locals == nil {
+			ne.locals = e.st
+		}
 		return ne.eval(c.Args[0]), true
 	case "len":
 		a := arg(0)
@@ -1665,6 +1674,28 @@ func (e *SpecEnv) builtinSpec(name string, c *ast.CallExpr) (Val, bool) {
 			return atom(eq)
 		}
 		return bval(&F{Op: "and", Kids: []*F{atom(sAnd(sEq(now.Arr, was.Arr), sEq(now.Off, was.Off), sEq(now.Len, was.Len))), {Op: "forall", Var: "u", Lo: "0", Hi: now.Len, Body: body}}}), true
+	case "gh":
+		// gh("name", key): ghost array G.name (mathematical integers) at an integer key
+		lit, ok := c.Args[0].(*ast.BasicLit)
+		if !ok || len(c.Args) != 2 {
+			sfail("gh(\"name\", key) expects a string literal and a key")
+		}
+		nm, _ := strconv.Unquote(lit.Value)
+		k := arg(1)
+		return e.x.readComps(e.st, "G."+nm, mathInt, k.S), true
+	case "pairkey":
+		// pairkey(a, b): an injective pairing of two scalar values into an integer key
+		a, b := arg(0), arg(1)
+		sa, sb := sortOfKind(a.K), sortOfKind(b.K)
+		fn := "pairkey." + sanitize(sa) + "." + sanitize(sb)
+		e.x.decls.Fun(fn, []string{sa, sb}, "Int")
+		e.x.decls.Fun(fn+".fst", []string{"Int"}, sa)
+		e.x.decls.Fun(fn+".snd", []string{"Int"}, sb)
+		e.x.decls.Pat("app:"+fn, func(args []string) string {
+			t := "(" + fn + " " + args[0] + " " + args[1] + ")"
+			return sAnd(sEq("("+fn+".fst "+t+")", args[0]), sEq("("+fn+".snd "+t+")", args[1]))
+		})
+		return Val{K: KInt, T: types.Typ[types.UntypedInt], S: "(" + fn + " " + a.S + " " + b.S + ")"}, true
 	case "strof":
 		// the string a byte content converts to (map keys built with string(bytes))
 		a := arg(0)
